@@ -2,7 +2,7 @@
    code-shaped _matvec / _rmatvec for kind full / half / trapezoidal and
    removefirst, the documented quadrature rules, adjointness for all sizes. *)
 From Coq Require Import ZArith Lia ZifyBool.
-From PV Require Export Deriv.
+From PV Require Export Deriv DerivSpec.
 
 Inductive ckind := Full | Half | Trapezoidal.
 
@@ -63,3 +63,182 @@ Definition ci_spec (k : ckind) (removefirst : bool) (s : F) (i : nat) (x : vec) 
     end
   end.
 End Causal.
+
+(* ================= proofs: adjointness, documented quadrature, lengths, linearity ================= *)
+Section CausalProofs.
+Variable F : FieldS.
+Add Ring RrCP : (rth F).
+Add Field FfCP : (fth F).
+Notation vec := (list F).
+Notation vadd := (vadd F). Notation vsub := (vsub F). Notation vscale := (vscale F).
+Notation dotu := (dotu F). Notation vsum := (vsum F).
+Notation two := (two F). Notation vdivc := (vdivc F).
+Notation cumsum_from := (cumsum_from F). Notation cumsum := (cumsum F).
+Local Open Scope R_scope.
+
+(* suffix sums: the transpose of cumsum *)
+Fixpoint sufsum (y : vec) : vec := match y with [] => [] | a :: t => (a + vsum t) :: sufsum t end.
+
+Lemma cumsum_from_length acc x : length (cumsum_from acc x) = length x.
+Proof. revert acc; induction x as [|a t IH]; intros; simpl; auto. Qed.
+Lemma sufsum_length y : length (sufsum y) = length y.
+Proof. induction y; simpl; auto. Qed.
+Lemma cumsum_from_app acc l a : cumsum_from acc (l ++ [a]) = cumsum_from acc l ++ [acc + vsum l + a].
+Proof. revert acc; induction l as [|b l IH]; intros acc; simpl.
+  - f_equal. ring.
+  - rewrite IH. do 3 f_equal. ring. Qed.
+Lemma vsum_rev l : vsum (rev l) = vsum l.
+Proof. induction l as [|a l IH]; simpl; auto. rewrite vsum_app, IH. simpl. ring. Qed.
+Lemma rev_cumsum_rev y : rev (cumsum (rev y)) = sufsum y.
+Proof. unfold Causal.cumsum. induction y as [|a t IH]; simpl; auto.
+  rewrite cumsum_from_app, rev_app_distr. simpl. rewrite IH, vsum_rev. f_equal. ring. Qed.
+Lemma dotu_cumsum_from acc x y : length x = length y ->
+  dotu (cumsum_from acc x) y = acc * vsum y + dotu x (sufsum y).
+Proof. revert acc y; induction x as [|a t IH]; intros acc [|b u] H; simpl in *; try discriminate; try ring.
+  rewrite IH by lia. ring. Qed.
+Lemma rev_map2 (f : F -> F -> F) u v : length u = length v -> rev (map2 f u v) = map2 f (rev u) (rev v).
+Proof. revert v; induction u as [|a u IH]; intros [|b v] H; simpl in *; try discriminate; auto.
+  rewrite IH by lia. clear IH. assert (L : length (rev u) = length (rev v)) by (rewrite !rev_length; lia).
+  revert L. generalize (rev u) (rev v). intros p; induction p as [|c p IHp]; intros [|d q] L; simpl in *; try discriminate; auto.
+  rewrite IHp by lia. reflexivity. Qed.
+Lemma rev_vdivc c u : rev (vdivc c u) = vdivc c (rev u).
+Proof. unfold Deriv.vdivc. symmetry. apply map_rev. Qed.
+Lemma rev_vscale c u : rev (vscale c u) = vscale c (rev u).
+Proof. unfold Vec.vscale. symmetry. apply map_rev. Qed.
+
+(* closed forms of the adjoint as coded (no flips) *)
+Definition half_adj (s : F) (y : vec) : vec := vscale s (vsub (sufsum y) (vdivc two y)).
+Lemma rmv_full s y : ci_rmv F Full false s y = vscale s (sufsum y).
+Proof. unfold ci_rmv. rewrite rev_vscale, rev_cumsum_rev. reflexivity. Qed.
+Lemma rmv_half s y : ci_rmv F Half false s y = half_adj s y.
+Proof. unfold ci_rmv, half_adj, Vec.vsub. rewrite rev_vscale, rev_map2 by (unfold Causal.cumsum; rewrite cumsum_from_length, vdivc_length; auto).
+  rewrite rev_cumsum_rev, rev_vdivc, rev_involutive. reflexivity. Qed.
+Lemma firstn_last {A} (l : list A) a : firstn (length (l ++ [a]) - 1) (l ++ [a]) = l.
+Proof. rewrite app_length. simpl. replace (length l + 1 - 1)%nat with (length l) by lia.
+  induction l; simpl; auto. f_equal; auto. Qed.
+Lemma skipn_last {A B} (f : A -> B) (l : list A) a : skipn (length (l ++ [a]) - 1) (map f (l ++ [a])) = [f a].
+Proof. rewrite app_length. simpl. replace (length l + 1 - 1)%nat with (length l) by lia.
+  induction l; simpl; auto. Qed.
+Lemma rmv_trap s y : (1 <= length y)%nat ->
+  ci_rmv F Trapezoidal false s y = (s * vsum y / two) :: tl (half_adj s y).
+Proof. intros Hn. unfold ci_rmv.
+  assert (E : vscale s (vsub (cumsum (rev y)) (vdivc two (rev y))) = rev (half_adj s y)).
+  { rewrite <- rmv_half. unfold ci_rmv. rewrite rev_involutive. reflexivity. }
+  rewrite E. assert (Lh : length (half_adj s y) = length y).
+  { unfold half_adj. rewrite vscale_length, vsub_length, sufsum_length, vdivc_length. lia. }
+  destruct (half_adj s y) as [|h T]; [simpl in Lh; lia|]. simpl rev. simpl tl.
+  rewrite firstn_last, skipn_last. simpl firstn. rewrite rev_app_distr. simpl. rewrite rev_involutive, vsum_rev. reflexivity. Qed.
+
+Lemma mv_full_adj s x y : length x = length y -> dotu (ci_mv F Full false s x) y = dotu x (ci_rmv F Full false s y).
+Proof. intros H. rewrite rmv_full. unfold ci_mv, Causal.cumsum. rewrite dotu_vscale_l, dotu_vscale_r, dotu_cumsum_from by auto. ring. Qed.
+Lemma dotu_half s x y : length x = length y ->
+  dotu (vsub (vscale s (cumsum x)) (vdivc two (vscale s x))) y = dotu x (half_adj s y).
+Proof. intros H. unfold half_adj, Causal.cumsum.
+  rewrite dotu_vsub_l by (rewrite vscale_length, cumsum_from_length, vdivc_length, vscale_length; auto).
+  rewrite dotu_vscale_r, dotu_vsub_r by (rewrite sufsum_length, vdivc_length; auto).
+  rewrite !vdivc_vscale, !dotu_vscale_l, dotu_vscale_r, dotu_cumsum_from by auto. ring. Qed.
+Lemma mv_half_adj s x y : length x = length y -> dotu (ci_mv F Half false s x) y = dotu x (ci_rmv F Half false s y).
+Proof. intros H. rewrite rmv_half. unfold ci_mv. apply dotu_half; auto. Qed.
+Lemma dotu_map_sub c (u v : vec) : length u = length v -> dotu (map (fun a => a - c) u) v = dotu u v - c * vsum v.
+Proof. revert v; induction u as [|a u IH]; intros [|b v] H; simpl in *; try discriminate; try ring. rewrite IH by lia. ring. Qed.
+Lemma mv_trap_adj s x y : 1 + 1 <> (0 : F) -> length x = length y ->
+  dotu (ci_mv F Trapezoidal false s x) y = dotu x (ci_rmv F Trapezoidal false s y).
+Proof. intros H2 H. destruct x as [|a t]; destruct y as [|b u]; simpl in H; try discriminate; [reflexivity|].
+  rewrite rmv_trap by (simpl; lia). pose proof (dotu_half s (a :: t) (b :: u)) as D. specialize (D ltac:(simpl; lia)).
+  unfold ci_mv. remember (vsub (vscale s (cumsum (a :: t))) (vdivc two (vscale s (a :: t)))) as y0 eqn:E0.
+  assert (L0 : length y0 = S (length t)).
+  { subst y0. unfold Causal.cumsum. rewrite vsub_length, vscale_length, cumsum_from_length, vdivc_length, vscale_length. simpl. lia. }
+  destruct y0 as [|h0 ht]; [simpl in L0; lia|]. simpl in L0.
+  assert (Lh : length (half_adj s (b :: u)) = S (length u)).
+  { unfold half_adj. rewrite vscale_length, vsub_length, sufsum_length, vdivc_length. simpl. lia. }
+  remember (half_adj s (b :: u)) as HA eqn:EA. destruct HA as [|h T]; [simpl in Lh; lia|].
+  assert (Eh : h = s * ((b + vsum u) - b / two)).
+  { unfold half_adj in EA. simpl in EA. inversion EA. reflexivity. }
+  cbn [firstn skipn app tl Vec.vscale map Deriv.vdivc nth]. cbn [Dot.dotu] in *.
+  rewrite dotu_map_sub by lia. cbn [Vec.vsum]. subst h.
+  unfold Deriv.two in *. rewrite !div_def in *.
+  assert (K : (1 + 1) * rinv F (1 + 1) = (1 : F)) by (field; auto).
+  replace (dotu ht u) with (a * (s * (b + vsum u - b * rinv F (1 + 1))) + dotu t T - h0 * b) by (rewrite <- D; ring).
+  match goal with |- ?L = ?R => transitivity (R + a * s * (b + vsum u) * (1 - (1 + 1) * rinv F (1 + 1))); [ring | rewrite K; ring] end.
+Qed.
+
+(* removefirst: forward drops row 0, adjoint prepends a zero sample *)
+Lemma dotu_skipn1 (v y : vec) : dotu (skipn 1 v) y = dotu v (0 :: y).
+Proof. destruct v; simpl; [destruct y; reflexivity | ring]. Qed.
+Lemma ci_mv_rf k s x : ci_mv F k true s x = skipn 1 (ci_mv F k false s x).
+Proof. reflexivity. Qed.
+Lemma ci_rmv_rf k s y : ci_rmv F k true s y = ci_rmv F k false s (0 :: y).
+Proof. reflexivity. Qed.
+Lemma ci_adjoint_norf k s x y : 1 + 1 <> (0 : F) -> length x = length y ->
+  dotu (ci_mv F k false s x) y = dotu x (ci_rmv F k false s y).
+Proof. intros; destruct k; [apply mv_full_adj | apply mv_half_adj | apply mv_trap_adj]; auto. Qed.
+Theorem ci_adjoint k (rf : bool) s x y : 1 + 1 <> (0 : F) ->
+  length y = (if rf then length x - 1 else length x)%nat -> ((if rf then 1 else 0) <= length x)%nat ->
+  dotu (ci_mv F k rf s x) y = dotu x (ci_rmv F k rf s y).
+Proof. intros H2 Hy Hn. destruct rf.
+  - rewrite ci_mv_rf, ci_rmv_rf, dotu_skipn1. apply ci_adjoint_norf; auto. simpl. lia.
+  - apply ci_adjoint_norf; auto. Qed.
+
+(* ---------------- model = documented quadrature ---------------- *)
+Notation sumn := (sumn F).
+Lemma sumn_shift f k : sumn f (S k) = f O + sumn (fun j => f (S j)) k.
+Proof. induction k as [|k IH]; simpl in *; [ring|]. rewrite IH. ring. Qed.
+Lemma nth_cumsum_from acc x i : (i < length x)%nat ->
+  nth i (cumsum_from acc x) 0 = acc + sumn (fun j => nth j x 0) (S i).
+Proof. revert acc i; induction x as [|a t IH]; intros acc i Hi; simpl in Hi; [lia|].
+  destruct i as [|i].
+  - simpl. ring.
+  - rewrite (sumn_shift (fun j => nth j (a :: t) 0) (S i)).
+    change (fun j => nth (S j) (a :: t) 0) with (fun j => nth j t 0).
+    change (nth (S i) (cumsum_from acc (a :: t)) 0) with (nth i (cumsum_from (acc + a) t) 0).
+    rewrite IH by lia. cbn [nth]. ring. Qed.
+Lemma nth_half s x i : 1 + 1 <> (0 : F) -> (i < length x)%nat ->
+  nth i (vsub (vscale s (cumsum x)) (vdivc two (vscale s x))) 0 = (sumn (fun j => nth j x 0) i + half F * nth i x 0) * s.
+Proof. intros H2 Hi. unfold Causal.cumsum.
+  rewrite nth_vsub by (rewrite vscale_length, cumsum_from_length, vdivc_length, vscale_length; auto).
+  rewrite vdivc_vscale, !nth_vscale, nth_cumsum_from by auto. cbn [Causal.sumn]. unfold half, Deriv.two. field; auto. Qed.
+Lemma ci_meets_spec_norf k s x i : 1 + 1 <> (0 : F) -> (i < length x)%nat ->
+  nth i (ci_mv F k false s x) 0 = ci_spec F k false s i x.
+Proof. intros H2 Hi. destruct k; unfold ci_mv, ci_spec.
+  - unfold Causal.cumsum. rewrite nth_vscale, nth_cumsum_from by auto. ring.
+  - apply nth_half; auto.
+  - pose proof (nth_half s x) as NH.
+    remember (vsub (vscale s (cumsum x)) (vdivc two (vscale s x))) as y0 eqn:E0.
+    assert (L0 : length y0 = length x).
+    { subst y0. unfold Causal.cumsum. rewrite vsub_length, vscale_length, cumsum_from_length, vdivc_length, vscale_length. lia. }
+    destruct x as [|a t]; [simpl in Hi; lia|]. destruct y0 as [|h0 ht]; [simpl in L0; lia|]. simpl in L0.
+    cbn [firstn skipn app Vec.vscale map Deriv.vdivc].
+    destruct i as [|i].
+    + cbn [nth]. specialize (NH O H2 ltac:(simpl; lia)). cbn [nth Causal.sumn] in NH. rewrite NH. ring.
+    + cbn [nth]. simpl in Hi.
+      rewrite (nth_indep _ 0 ((fun v => v - s * a / two) 0)) by (rewrite map_length; lia).
+      rewrite (map_nth (fun v => v - s * a / two)).
+      specialize (NH (S i) H2 ltac:(simpl; lia)).
+      change (nth i ht 0) with (nth (S i) (h0 :: ht) 0). rewrite NH.
+      rewrite (sumn_shift (fun j => nth j (a :: t) 0) i). cbn [nth].
+      unfold half, Deriv.two. field; auto. Qed.
+Theorem ci_meets_spec k (rf : bool) s x i : 1 + 1 <> (0 : F) -> ((if rf then S i else i) < length x)%nat ->
+  nth i (ci_mv F k rf s x) 0 = ci_spec F k rf s i x.
+Proof. intros H2 Hi. destruct rf.
+  - rewrite ci_mv_rf, nth_skipn. change (1 + i)%nat with (S i). rewrite ci_meets_spec_norf by auto. reflexivity.
+  - apply ci_meets_spec_norf; auto. Qed.
+
+(* ---------------- lengths and linearity ---------------- *)
+Lemma ci_mv_length k (rf : bool) s x : length (ci_mv F k rf s x) = (if rf then length x - 1 else length x)%nat.
+Proof. unfold ci_mv, Causal.cumsum; destruct k, rf;
+  repeat (rewrite ?app_length, ?firstn_length, ?skipn_length, ?map_length, ?rev_length, ?vscale_length, ?vsub_length,
+          ?cumsum_from_length, ?vdivc_length; cbn [length]); lia. Qed.
+Lemma ci_rmv_length k (rf : bool) s y : length (ci_rmv F k rf s y) = (if rf then S (length y) else length y)%nat.
+Proof. unfold ci_rmv, Causal.cumsum; destruct k, rf;
+  repeat (rewrite ?app_length, ?firstn_length, ?skipn_length, ?map_length, ?rev_length, ?vscale_length, ?vsub_length,
+          ?cumsum_from_length, ?vdivc_length; cbn [length]); lia. Qed.
+Theorem ci_fwd_linear k (rf : bool) s n : 1 + 1 <> (0 : F) -> ((if rf then 1 else 0) <= n)%nat -> LinearOn F n (ci_mv F k rf s).
+Proof. intros H2 Hn. apply (adjpair_linear_l F n (if rf then n - 1 else n)%nat _ (ci_rmv F k rf s)).
+  - intros x y Hx Hy. apply ci_adjoint; auto; rewrite Hx; auto.
+  - intros x Hx. rewrite ci_mv_length, Hx. reflexivity. Qed.
+Theorem ci_adj_linear k (rf : bool) s n : 1 + 1 <> (0 : F) -> ((if rf then 1 else 0) <= n)%nat ->
+  LinearOn F (if rf then n - 1 else n)%nat (ci_rmv F k rf s).
+Proof. intros H2 Hn. apply (adjpair_linear_r F n (if rf then n - 1 else n)%nat (ci_mv F k rf s)).
+  - intros x y Hx Hy. apply ci_adjoint; auto; rewrite Hx; auto.
+  - intros y Hy. rewrite ci_rmv_length, Hy. destruct rf; lia. Qed.
+End CausalProofs.
